@@ -599,14 +599,11 @@ def gonality_theoretical_bounds(graph: CFGraph) -> Dict[str, int]:
         bounds['trivial_lower_bound'],
         bounds['minimum_degree_bound'],
         bounds['bramble_order_bound'] - 1,  # bramble order - 1 = treewidth lower bound
-        max(1, bounds['connectivity_bound'] - 1)
     ]
     
     upper_bound_candidates = [
         bounds['trivial_upper_bound'],
         bounds['independence_upper_bound'],
-        bounds['treewidth_lower_bound'] + 1,  # rough upper bound from treewidth
-        bounds['scramble_bound']
     ]
     
     bounds['lower_bound'] = max(lower_bound_candidates)
